@@ -387,15 +387,15 @@ func (d *Driver) IndexGC(op *Op) {
 	}
 	_, _, err := d.St.Index().VerifGC(ctx, op.A&1 == 1)
 	if !gcErrOK(err) {
-		d.Probes["index-gc-error"]++
+		d.cprobe("index-gc-error")
 		if d.GCErrFatal {
 			d.fail("gc/index-gc-error", "index GC cycle failed: %v", err)
 		}
 		return
 	}
-	d.Probes["index-gc"]++
+	d.cprobe("index-gc")
 	if cd != nil && cd.hit {
-		d.Probes["index-gc-interrupted"]++
+		d.cprobe("index-gc-interrupted")
 	}
 }
 
@@ -414,15 +414,15 @@ func (d *Driver) PrimaryGC(op *Op) {
 	}
 	_, err := mp.GC(ctx, int64(op.A))
 	if !gcErrOK(err) {
-		d.Probes["primary-gc-error"]++
+		d.cprobe("primary-gc-error")
 		if d.GCErrFatal {
 			d.fail("gc/primary-gc-error", "primary GC cycle failed: %v", err)
 		}
 		return
 	}
-	d.Probes["primary-gc"]++
+	d.cprobe("primary-gc")
 	if cd != nil && cd.hit {
-		d.Probes["primary-gc-interrupted"]++
+		d.cprobe("primary-gc-interrupted")
 	}
 }
 
@@ -512,7 +512,7 @@ func runSeq(p *Plan, tape *simrt.Tape, opt RunOpt) *RunOut {
 	d.fileProbes(fs)
 	out.addFS(fs)
 	out.FinalFS = fs
-	out.addProbes(d.Probes)
+	out.addDriver(d)
 	viol := d.Viol
 	if only := onlyClass(p); only != "" && viol != nil && !strings.HasPrefix(viol.Class, only) {
 		// another property's oracle failed first; this check reports only its own
